@@ -22,3 +22,13 @@ mod c07_cmp;
 mod a1_axioms;
 #[cfg(kani)]
 mod c15_slices;
+#[cfg(kani)]
+mod c17_traits;
+#[cfg(kani)]
+mod c04_panics;
+#[cfg(kani)]
+mod c02_mul;
+#[cfg(kani)]
+mod c03_div;
+#[cfg(kani)]
+mod c08_powlog;
